@@ -74,6 +74,13 @@ EXTRA_RXNS = [
     ">>[CH3:1][c:2]1[cH:4][c:5]([CH3:7])[n:9]([CH3:10])[n:8]1.[O:3]([H:12])[H:13].[O:6]([H:14])[H:15]",
     "[CH3:1][C:2](=[O:3])[CH2:4][CH2:5][C:6](=[O:7])[CH3:8].[NH3:9]>>[CH3:1][c:2]1[cH:4][cH:5][c:6]([CH3:8])[nH:9]1.[OH2:3].[OH2:7]",
     "[CH2:1]1[CH:2]=[CH:3][NH:4][CH:5]=[CH:6]1.[O:7]=[O:8]>>[cH:1]1[cH:2][cH:3][n:4][cH:5][cH:6]1.[OH:7][OH:8]",
+    # two independent hydrogen-transfer groups, one atom handing over two hydrogens (imine formation + acylation in one step)
+    "[H:1][N:2]([H:3])[CH2:4][CH2:5][O:6][H:7].[CH3:8][CH:9]=[O:10].[CH3:11][C:12](=[O:13])[Cl:14]>>"
+    "[CH3:8][CH:9]=[N:2][CH2:4][CH2:5][O:6][C:12](=[O:13])[CH3:11].[H:1][O:10][H:3].[Cl:14][H:7]",
+    # centre keeps an explicit X-H bond and the substrate carries an unchanged bystander molecule / ion
+    "[CH3:1][CH:2]=[CH2:3].[H:4][H:5].[OH2:6]>>[CH3:1][CH:2]([H:4])[CH2:3][H:5].[OH2:6]",
+    "[CH3:1][NH2+:2][H:3].[Cl-:4]>>[CH3:1][NH2:2].[H+:3].[Cl-:4]",
+    "[CH3:1][C:2](=[O:3])[O:4][H:5].[NH3:6].[Na+:7]>>[CH3:1][C:2](=[O:3])[O-:4].[NH3+:6][H:5].[Na+:7]",
 ]
 
 
@@ -318,6 +325,12 @@ SYNTH_PRUNE = [
     ("[CH2:1]1[CH2:2][Br+:3]1>>[CH2+:1][CH2:2][Br:3]", ["CC1C[Br+]1", "CCC1C[Br+]1"]),
     ("[CH2:1]=[CH2:2]>>[CH2+:1][CH2-:2]", ["CC=C", "CC=CCC", "C=CC=O"]),
     ("[CH2:1]1[CH2:2][CH2:3]1>>[CH2+:1][CH2:2][CH2-:3]", ["CC1CC1", "CC1CC1C"]),
+    # four components on both sides whose candidate molecules overlap pairwise (halogen exchange round)
+    ("[C:1][F:2].[C:3][Cl:4].[C:5][Br:6].[C:7][I:8]>>[C:1][Cl:4].[C:3][Br:6].[C:5][I:8].[C:7][F:2]",
+     ["CF.ClCCI.ClCCBr.BrCCI", "ClCCBr.CF.BrCCI.ClCCI", "BrCCI.ClCCBr.ClCCI.CF"]),
+    # two free components that can sit in one symmetric molecule in different relative positions
+    ("[C:1](=[O:2])[Cl:3].[O:4][H:5].[N:6]>>[C:1](=[O:2])[O:4].[Cl-:3].[N+:6][H:5]", ["CC(=O)Cl.OCC(N)C(N)CO", "CC(=O)Cl.NC(CO)C(N)CO"]),
+    ("[C:1][H:2].[Cl:3][Cl:4]>>[C:1][Cl:3].[H:2][Cl:4]", ["C1CCCC1.C1CCCCC1.ClCl", "C1CCCCC1.C1CCCC1.ClCl"]),
     # many cross-component combinations (2 esters x 2 x 2 alcohol sites): exercises the embedding cap
     ("[C:1][O:2].[O:3][H:4]>>[C:1][O:3].[O:2][H:4]", ["COC(=O)CC(=O)OCC.CC(O)CO", "COC(C)=O.OCCO"]),
 ]
